@@ -37,6 +37,10 @@ def f_chain(**knobs):
         prog.append(["step", "false", {"inp": [k["b_out"]], "out": ["c.txt"]}])
     if k.get("b_static"):
         prog.append(["static", "b.txt"])
+    if k.get("f"):
+        # an independent step that fails, declared last: the steps before it are re-validated
+        # first, then the build drains before anything runs again
+        prog.append(["step", "false", {"out": ["f.txt"]}])
     files = {"plan.py": script(prog)}
     if k.get("b_static"):
         files["b.txt"] = "user provided b\n"
